@@ -128,9 +128,43 @@ def populate_sample_dir(d):
     open(os.path.join(d, b"ST-01", b"kick"), "wb").write(bytes(64))
 
 
-def build_world(ck, work, quick):
+def deep_path(total, base):
+    """relative path of exactly `total` bytes ending in `base` (components of <= 250 bytes)"""
+    need = total - len(base)
+    comps = []
+    while need > 0:
+        n = min(250, need - 1)
+        if need - (n + 1) == 1:
+            n -= 1
+        comps.append(b"p" * n)
+        need -= n + 1
+    return b"/".join(comps) + b"/" + base
+
+
+def write_deep(root, rel, data):
+    """create rel (longer than PATH_MAX when joined with root) below root, descending by directory fd"""
+    parts = rel.split(b"/")
+    fd = os.open(root, os.O_RDONLY)
+    try:
+        for c in parts[:-1]:
+            try:
+                os.mkdir(c, dir_fd=fd)
+            except FileExistsError:
+                pass
+            nfd = os.open(c, os.O_RDONLY, dir_fd=fd)
+            os.close(fd)
+            fd = nfd
+        f = os.open(parts[-1], os.O_WRONLY | os.O_CREAT | os.O_TRUNC, 0o600, dir_fd=fd)
+        os.write(f, data)
+        os.close(f)
+    finally:
+        os.close(fd)
+
+
+def build_world(ck, work, quick, rnd=0):
     """creates the scratch tree below `work` and returns the list of operations"""
-    rng = ck.rng
+    import random
+    rng = random.Random(vlib.hash_str("C10-opens-%d-%d" % (ck.seed, rnd)))
     ops = []
     wb = work.encode()
     os.makedirs(os.path.join(work, "tmp"))
@@ -143,6 +177,7 @@ def build_world(ck, work, quick):
 
     dirnames = SHELLY[:] if not quick else [SHELLY[0]] + rng.sample(SHELLY[1:], 5)
     counter = [0]
+    late = []           # operations that may abort the harness go last
 
     def new_id():
         counter[0] += 1
@@ -258,7 +293,13 @@ def build_world(ck, work, quick):
             os.makedirs(os.path.join(wb, fitdir))
             shutil.copy(os.path.join(moddir, base + b".flt"), os.path.join(wb, fitdir, b"m.flt"))
             ops.append(Op(new_id(), "flt", "path", fitdir + b"/m.flt", None, None, "fail", [], 0, "module path of exactly 1020 bytes"))
-    return ops
+            # Magnetic Fields module whose path nearly fills smp_filename[PATH_MAX]; the ".set" fallback must still fit
+            mfpdata = open(os.path.join(CORPUS, "m", "mfp.crystaldragon title"), "rb").read()
+            for total, bn in ((4090, b"mfp.kid-"), (4093, b"mfp.ki-x"), (4095, b"mfp.kid-")):
+                rel = deep_path(total, bn)
+                write_deep(wb, rel, mfpdata)
+                late.append(Op(new_id(), "mfp", "path", rel, None, None, "fail", [], 0, "module path of %d bytes" % total))
+    return ops + late
 
 
 # ---------------------------------------------------------------- judging
@@ -437,7 +478,7 @@ def py_decision(op, work, min_header):
     return ("notpacked", [])
 
 
-def run_opens(ck):
+def run_opens(ck, only_round=None, only_op=None, verbose=False):
     quick = ck.tier == "quick"
     exe = vlib.build_harness("c10_opens", ["c10_opens.c"], extra=EXTRA)
     rounds = 1 if quick else 6
@@ -446,21 +487,28 @@ def run_opens(ck):
     def bump(k, n=1):
         stats[k] = stats.get(k, 0) + n
 
-    for rnd in range(rounds):
+    for rnd in (range(rounds) if only_round is None else [only_round]):
         work = os.path.join(vlib.OUT, "c10-opens-%d-%d-%d" % (ck.seed, os.getpid(), rnd))
         shutil.rmtree(work, ignore_errors=True)
         os.makedirs(work)
         try:
-            ops = build_world(ck, work, quick)
+            ops = build_world(ck, work, quick, rnd)
+            if only_op is not None:
+                ops = [o for o in ops if o.id == only_op]
             plan = os.path.join(work, "plan.txt")
             open(plan, "w").write("\n".join(o.line() for o in ops) + "\n")
             tmpdir = os.path.join(work, "tmp").encode()
             rc, out, err = vlib.run_exe(exe, [plan, work], timeout=1800, env={"TMPDIR": tmpdir.decode()})
             log = parse_log(out.decode("latin-1"))
+            if verbose:
+                for l in out.decode("latin-1").splitlines():
+                    f = l.split(" ")
+                    print("   " + (" ".join([f[0], f[1]] + [repr(unhex(a))[:200] for a in f[2:]]) if f[0] == "sys" else l))
+                print(err[-3000:])
             if rc != 0:
                 sig = vlib.sanitizer_signature(err)
                 done = len(log)
-                ck.violation("opens-harness-abort:" + sig, {"stderr": err[-3000:], "ops_done": done,
+                ck.violation("opens-harness-abort:" + sig, {"round": rnd, "stderr": err[-3000:], "ops_done": done,
                                                             "next_op": ops[min(done // 2, len(ops) - 1)].describe()},
                              "load harness aborted (rc=%d): %s" % (rc, sig))
             # the model's view
@@ -506,13 +554,13 @@ def run_opens(ck):
                         bump("loads_ok")
                     for sig, what in viol:
                         what = what if len(what) < 700 else what[:340] + " ... " + what[-340:]
-                        ck.violation(sig, {"op": op.describe(), "phase": phase, "return": ret,
+                        ck.violation(sig, {"round": rnd, "op": op.describe(), "phase": phase, "return": ret,
                                            "calls": [[c[0]] + [unhex(a) for a in c[1:]] for c in calls][:60],
                                            "how": "python3 tools/check.py C10 --replay <this file> rebuilds the file set and re-runs the operation"},
                                      what)
                     # correspondence: companions
                     if mo is not None and phase == "load" and not viol:
-                        if op.fmt in ("flt", "mfp") and len(op.modpath) + 3 < 1024:
+                        if op.fmt in ("flt", "mfp") and (len(op.modpath) + 3 < 1024 or op.fmt == "mfp"):
                             want = m.get(op.fmt, [])
                             seen = [p for p in obs["opened"]]
                             # the library stops at the first name that opens
@@ -554,8 +602,25 @@ def run_opens(ck):
 
 
 def replay(ck, rp):
-    print("replay of C10 load cases: re-run `python3 tools/check.py C10` with VERIF_SEED=%s (the file set is regenerated from the seed)" % rp.get("seed"))
-    import checks.c10 as c10
+    """re-create the file set of the recorded round from the recorded seed and re-run the recorded operation
+    (or the whole plan for a harness abort) on the real code; prints every intercepted OS call"""
+    r = rp.get("replay", {})
+    if rp.get("signature") == "unproved" or not isinstance(r, dict) or "round" not in r:
+        print("this replay names broken theorems / correspondences, not an input:")
+        print(str(r)[:3000])
+        print("re-run: VERIF_SEED=%s python3 tools/check.py C10 --tier %s" % (rp.get("seed"), rp.get("tier")))
+        return 1
     ck2 = vlib.Check("C10", rp.get("tier", "quick"), int(rp.get("seed", 1)))
-    c10.run(ck2)
-    return ck2.finish()
+    ck2.lean_ok = False
+    ck2.driver_ok = os.path.exists(vlib.lean_driver("drv_c10"))
+    import gen_open_sites
+    ck2.min_header = gen_open_sites.generate()["min_header"]
+    op = r.get("op", {}).get("id") if isinstance(r.get("op"), dict) else None
+    print("replaying C10 load case: seed=%s tier=%s round=%s op=%s" % (rp.get("seed"), rp.get("tier"), r["round"], op or "(whole plan)"))
+    run_opens(ck2, only_round=r["round"], only_op=op, verbose=True)
+    bad = [v for v in ck2.violations] + [{"signature": k} for k in ck2.known_hits]
+    for v in ck2.violations:
+        print("VIOLATION property=C10 replay=%s   [%s] %s" % (v["replay"], v["signature"], v["what"][:300]))
+    if not bad:
+        print("the recorded operation no longer violates the property")
+    return 1 if ck2.violations else 0
